@@ -3,6 +3,7 @@
 //!   gv replay <file> [--strict]        re-run one saved case through its sub-check
 //!   gv list                            list property ids
 
+mod astx;
 mod cfg;
 mod checks;
 mod gen;
